@@ -60,6 +60,11 @@ def build_nodes(case):
               'start': (case.get('starts') or [0] * 8)[i], 'required': [c for c, cs in topo if cs and nid in cs] if case.get('required', True) else None}
         if nid == x and case.get('exit_after') is not None:
             nd['cfg'] = {'exit_after': case['exit_after']}
+            if case.get('starved'):     # nobody takes its frames: every send runs into outputs_timeout and the frames are dropped
+                nd['cfg']['outputs_timeout'] = case['starved']
+                nd['required'] = None
+        if case.get('starved') and srcs and x in srcs:
+            nd['autostart'] = False     # the consumers of the exiting filter never start
         nodes.append(nd)
     return nodes, topo, x
 
@@ -217,7 +222,7 @@ def run_case(case):
     if announce is None and any(src == x for src, _ in oob_sent):
         return bad(f'{x} announced an exit although its init did not complete', 'announce-policy:init', classes)
     for nid, _ in topo:
-        if nid == x:
+        if nid == x or (nid, 0) not in p.actors:      # (never started)
             continue
         e = ends.get((nid, 0))
         if nid in expected:
@@ -236,7 +241,7 @@ def run_case(case):
                        f'(exiting filter {x}: {announce}, prop_exit={(case["policies"].get(x) or case["policies"]["*"])[0]})', f'unexpected-exit:{announce}', classes)
     if announce is not None:
         bit = 1 if announce == 'clean' else 2
-        if all(pol(nid)[0] & bit and pol(nid)[1] & bit for nid, _ in topo) and state['process_before'] >= 1:
+        if all(pol(nid)[0] & bit and pol(nid)[1] & bit for nid, _ in topo) and state['process_before'] >= 1 and not case.get('starved'):
             still = [nid for nid, _ in topo if (nid, 0) not in ends]
             if still:
                 return bad(f'all filters propagate and obey {announce} exits, yet {still} are still running 3 s after {x} ended', f'pipeline-not-terminated:{announce}', classes)
@@ -289,6 +294,12 @@ def matrix_cases(tier):
         for T, forms in ((1.5, [1.5, '0:01.5', '@']), (2, [2, '0:02', '@'])):
             for form in forms:
                 yield exit_after_case(pos, T, form)
+    # exit_after while every send times out (outputs_timeout); only positions where the filter keeps *processing frames* (the statement's
+    # precondition): a source, or a relay that is the only consumer of its source - a rejoin branch would starve for input instead
+    for pos in ('chain:S', 'chain:M', 'tee:S', 'rejoin:S'):
+        for form in (1.5, '0:01.5', '@'):
+            for ot in (150, 400):
+                yield {**exit_after_case(pos, 1.5, form), 'starved': ot}
 
 
 def exit_after_case(pos, T, form):
